@@ -263,6 +263,7 @@ func runRelay(t vh.TB, c *RelayCase) vh.Outcome {
 			o.Classes = append(o.Classes, "2+requests-in-flight-for-one-backend")
 		}
 	}
+	sentAt := time.Now()
 	for _, f := range fl {
 		f := f
 		go func() { f.done <- clientRequestQ(r, backends[f.q.Backend], f.q.Method, f.tok, f.q.Query, f.body) }()
@@ -375,6 +376,10 @@ func runRelay(t vh.TB, c *RelayCase) vh.Outcome {
 	}
 	var lmu sync.Mutex
 	var listings []listing
+	outstanding := map[int]int{}
+	for _, f := range fl {
+		outstanding[f.q.Backend]++
+	}
 	stopPoll := make(chan struct{})
 	var pollWG sync.WaitGroup
 	for bi := 0; bi < c.Backends; bi++ {
@@ -383,11 +388,22 @@ func runRelay(t vh.TB, c *RelayCase) vh.Outcome {
 		go func() {
 			defer pollWG.Done()
 			b := backends[bi]
+			idle := 0
 			for {
 				select {
 				case <-stopPoll:
 					return
 				default:
+				}
+				// While a request of this backend is unanswered the list call returns at once. Afterwards it is a long poll
+				// that goes on inside the proxy for 30 s after this client has given up on it: only a few of those.
+				lmu.Lock()
+				left := outstanding[bi]
+				lmu.Unlock()
+				if left == 0 {
+					if idle++; idle > 4 {
+						return
+					}
 				}
 				asked := time.Now()
 				resp := r.Do("agent", "GET", "/agent/pending", agentHeaders(b, ""), nil, aerig.Identity{OAuthEmail: b.agent}, 250*time.Millisecond)
@@ -434,11 +450,19 @@ func runRelay(t vh.TB, c *RelayCase) vh.Outcome {
 			return o
 		}
 		accepted[f.rid] = time.Now()
+		lmu.Lock()
+		outstanding[f.q.Backend]--
+		lmu.Unlock()
 		// the client gets exactly this response
 		select {
 		case cr := <-f.done:
 			wantResp, _ := http.ReadResponse(bufio.NewReader(bytes.NewReader(wire)), nil)
 			wantBody, _ := io.ReadAll(wantResp.Body)
+			if cr.Status == 504 && accepted[f.rid].Sub(sentAt) > 25*time.Second {
+				// the proxy waits 30 s for a response; on a machine this busy the harness itself took longer to post it
+				o.Inconclusive = fmt.Sprintf("the harness needed %v to post the response of %s (the proxy gives up after 30 s)", accepted[f.rid].Sub(sentAt).Round(time.Second), f.rid)
+				return o
+			}
 			if cr.Err != nil || cr.Status != 200 || cr.Header.Get("X-Resp-Token") != f.tok || strings.Join(cr.Header.Values("X-Multi"), ",") != "a,b" || !bytes.Equal(cr.Body, wantBody) {
 				o.Err = fmt.Errorf("client %s received status %d, token %q, %d body bytes (hash %s); the response posted under its id has token %q and %d body bytes (hash %s) (%v)",
 					f.tok, cr.Status, cr.Header.Get("X-Resp-Token"), len(cr.Body), vh.HashBytes(cr.Body), f.tok, len(wantBody), vh.HashBytes(wantBody), cr.Err)
